@@ -8,7 +8,7 @@ for f in sorted(glob.glob('/root/mut_results/*.json')):
     except Exception:
         continue
     key = os.path.basename(f).split('.')[0]
-    m = re.match(r'([HRS]?)(C\d\d)_(\d)', key)
+    m = re.match(r'([HRST]?)(C\d\d)_(\d)', key)
     if not m:
         continue
     res.setdefault((m.group(1) + m.group(2), m.group(3)), []).append((key, d))
@@ -16,11 +16,12 @@ for (prop, k), runs in sorted(res.items()):
     hard = prop.startswith('H')
     third = prop.startswith('R')
     fourth = prop.startswith('S')
-    prop = prop.lstrip('HRS')
-    src = f'/tmp/mut4_{prop}/{k}' if fourth else f'/tmp/mut3_{prop}/{k}' if third else f'/tmp/mut2_{prop}/{k}' if hard else f'/tmp/mut_{prop}/{k}'
+    fifth = prop.startswith('T')
+    prop = prop.lstrip('HRST')
+    src = f'/tmp/mut5_{prop}/{k}' if fifth else f'/tmp/mut4_{prop}/{k}' if fourth else f'/tmp/mut3_{prop}/{k}' if third else f'/tmp/mut2_{prop}/{k}' if hard else f'/tmp/mut_{prop}/{k}'
     if not os.path.isdir(src):
         continue
-    dst = f'/verif/seeded/{prop}-{"s" if fourth else "r" if third else "h" if hard else ""}{k}'
+    dst = f'/verif/seeded/{prop}-{"t" if fifth else "s" if fourth else "r" if third else "h" if hard else ""}{k}'
     os.makedirs(dst, exist_ok=True)
     for fn in ('patch.diff', 'demo.py', 'notes.txt'):
         if os.path.exists(f'{src}/{fn}'):
@@ -31,9 +32,20 @@ for (prop, k), runs in sorted(res.items()):
         for p, v in (d.get('checks') or {}).items():
             checks.setdefault(p, []).append({"evaluation": key, "rc": v["rc"], "first_line": (v["lines"][0][:200] if v["lines"] else "")})
     tests = next((d.get('tests') for _, d in runs if d.get('tests')), '')
+    if not tests and os.path.exists(f'{dst}/meta.json'):      # a re-evaluation with --skip-tests keeps the recorded suite result
+        try:
+            tests = json.load(open(f'{dst}/meta.json'))["confirmed"]["test_suite_with_patch"]
+        except Exception:
+            pass
     notes = open(f'{src}/notes.txt').read() if os.path.exists(f'{src}/notes.txt') else ''
+    if not notes and os.path.exists(f'{src}/meta.json'):      # fifth round: the author's own meta.json
+        try:
+            am = json.load(open(f'{src}/meta.json'))
+            notes = "Change: " + str(am.get("summary", "")) + "\nNeeds: " + str(am.get("needs", ""))
+        except Exception:
+            pass
     caught_by = sorted({p for p, vs in checks.items() if vs[-1]["rc"] == 1})
-    meta = {"breaks_property": prop, "written_by": "independent sub-agent given only the property text and a scratch worktree" + (" and asked for changes that are hard for a randomized/model-based checker (second round)" if hard else " and asked for error paths, boundaries, unusual but legal API use, other modules (third round)" if third else " and asked for defects that manifest in mainstream use only: run_simulator / the command line, shipped schedulers, valid parameters (fourth round)" if fourth else ""),
+    meta = {"breaks_property": prop, "written_by": "independent sub-agent given only the property text and a scratch worktree" + (" and asked for a change that needs something specific to manifest - an interleaving, a fault at a particular point, a multi-step sequence, an unusual valid input, two cooperating sites (fifth round)" if fifth else " and asked for changes that are hard for a randomized/model-based checker (second round)" if hard else " and asked for error paths, boundaries, unusual but legal API use, other modules (third round)" if third else " and asked for defects that manifest in mainstream use only: run_simulator / the command line, shipped schedulers, valid parameters (fourth round)" if fourth else ""),
             "needs_to_manifest": notes.strip().split('\n')[:8],
             "confirmed": {"patch_applies_to_repo_head": first.get("applies"), "test_suite_with_patch": tests,
                           "demo_exit_with_patch": first.get("demo_with_patch_rc"), "demo_exit_without_patch": first.get("demo_without_patch_rc"),
